@@ -684,8 +684,12 @@ impl Emit for ModuleFunctions {
             ));
         }
         cx.code_transform.function_ranges.sort_by_key(|i| i.0);
-        // FIXME: code section start in DWARF debug information expects 2 bytes before actual code section start.
-        cx.code_transform.code_section_start = code_section_start_offset - 2;
+        // Code-relative (DWARF) addresses are measured from the start of the
+        // code section's contents, i.e. from its LEB128-encoded function count,
+        // which precedes the first function entry.
+        let mut func_count_leb = Vec::new();
+        (cx.code_transform.function_ranges.len() as u32).encode(&mut func_count_leb);
+        cx.code_transform.code_section_start = code_section_start_offset - func_count_leb.len();
         cx.code_transform.instruction_map = instruction_map.into_iter().collect();
     }
 }
